@@ -40,6 +40,14 @@ pub(crate) mod chan {
         match which { 0 => { note(&msg); core::mem::forget(msg); Ok(()) } 1 => Err(SendTimeoutError::Timeout(msg)), _ => Err(SendTimeoutError::Disconnected(msg)) }
     }
 
+    // occupancy queries: the contract says nothing links them to the outcome of an earlier try_send (another producer or
+    // the worker may have run in between), so each answer is whatever the harness scripted
+    vstatic!(pub(crate) NEXT_IS_FULL: AtomicUsize = AtomicUsize::new(0));
+    vstatic!(pub(crate) NEXT_LEN: AtomicUsize = AtomicUsize::new(0));
+    pub(crate) fn is_full_stub<T>(_s: &Sender<T>) -> bool { NEXT_IS_FULL.load(SeqCst) != 0 }
+    pub(crate) fn is_empty_stub<T>(_s: &Sender<T>) -> bool { NEXT_LEN.load(SeqCst) == 0 }
+    pub(crate) fn len_stub<T>(_s: &Sender<T>) -> usize { NEXT_LEN.load(SeqCst) }
+
     // consumer side: a script of up to 4 messages; entry kinds: 0 = Line([k, k+1]) , 1 = Shutdown, 2 = Empty (try_recv only), 3 = Disconnected
     vstatic!(pub(crate) SCRIPT: [AtomicUsize; 4] = [AtomicUsize::new(3), AtomicUsize::new(3), AtomicUsize::new(3), AtomicUsize::new(3)]);
     vstatic!(pub(crate) POS: AtomicUsize = AtomicUsize::new(0));
